@@ -306,6 +306,7 @@ type opResult struct {
 	seqs  []string
 	extra string
 	err   string
+	grow  string // what went wrong when the result was grown (not part of the key)
 }
 
 func (r *opResult) key() string {
@@ -386,6 +387,21 @@ func (c *C10Case) apply(seed int64) (res opResult) {
 	if res.err == "" {
 		r2 := collect(out)
 		res.rows, res.names, res.seqs = r2.rows, r2.names, r2.seqs
+		// the result is an alignment like any other: growing it (its own columns appended once more) must leave the
+		// columns it had where they were
+		if out != nil && out.NbSequences() > 0 {
+			if cl, err := out.Clone(); err == nil {
+				if err := out.Concat(cl); err == nil {
+					r3 := collect(out)
+					for i := range r3.seqs {
+						if i < len(r2.seqs) && r3.seqs[i] != r2.seqs[i]+r2.seqs[i] {
+							res.grow = fmt.Sprintf("row %d (%s) is %q after the result was concatenated with a copy of itself, %q expected", i, r2.names[i], r3.seqs[i], r2.seqs[i]+r2.seqs[i])
+							break
+						}
+					}
+				}
+			}
+		}
 	}
 	return
 }
@@ -666,6 +682,10 @@ func (c10) Run(ctx *Ctx, ci interface{}) (o Outcome) {
 		}
 		if cl, msg := c.invariant(&r1); cl != "" {
 			fail("invariant:"+cl, "%s\nresult: %s", msg, r1.key())
+			return
+		}
+		if r1.grow != "" {
+			fail("invariant:result-rows-not-independent", "%s\nresult: %s", r1.grow, r1.key())
 			return
 		}
 		// a different seed must be able to give a different result (sanity of the seam, not a verdict)
